@@ -44,8 +44,10 @@ impl Gate {
         let mut p = self.pos.lock().unwrap();
         while *p < self.sched.len() && self.sched[*p] != who { p = self.cv.wait(p).unwrap(); }
         f();
-        // wait until the boss has taken the message out of the channel
-        while !drained() { std::thread::yield_now(); }
+        // wait until the boss has taken the message out of the channel (or has gone away: a boss that gives up
+        // during the listing drops its receiver; 30 s is a backstop so that a stuck request cannot stall the batch)
+        let t0 = std::time::Instant::now();
+        while !drained() && t0.elapsed() < Duration::from_secs(30) { std::thread::yield_now(); }
         *p += 1;
         self.cv.notify_all();
     }
@@ -72,7 +74,7 @@ fn scripted_doer(side: u8, root: Option<EntryDetails>, diff: bool, entries: Vec<
             Command::GetEntries { .. } => {
                 for (p, e) in entries.iter() {
                     let msg = Response::Entry((crate::root_relative_path::verif_hooks::rrp_from_text(p), e.clone()));
-                    gate.turn(side, || { let _ = s.send(msg); }, || crate::memory_bound_channel::verif_hooks::sender_queue_len(&s) == 0);
+                    gate.turn(side, || { let _ = s.send(msg); }, || crate::memory_bound_channel::verif_hooks::sender_queue_len(&s) == 0 || !crate::memory_bound_channel::verif_hooks::sender_receiver_alive(&s));
                 }
                 let _ = s.send(Response::EndOfEntries);
             }
